@@ -590,6 +590,49 @@ theorem switch_order_irrelevant (dbg : Bool) (sw : IrValue → Res Nat) (v : IrV
     rw [hn]
 
 
+/-- A branch table with ONE entry `[(k, l)]` (`if`/`while`/`&&`/`||` with k = 1 on a bool; a `match`
+    with one explicit arm and `_` with k = the variant's discriminant): both sides test the examinee
+    for EQUALITY with `k` — the evaluator's generated arm, and the Cranelift switch the code generator's
+    (shape-checked) arm builds, which exists for every such table. -/
+theorem switch_single_entry (dbg : Bool) (sw : IrValue → Res Nat) (v : IrValue) (x k l default : Nat)
+    (hx : sw v = .ok x) :
+    eval_Switch dbg sw v [(k, l)] default = .ok (if x = k then l else default)
+    ∧ ∃ s, cg_Switch [(k, l)] = .ok s ∧ s.target default x = (if x = k then l else default) := by
+  have hs : cg_Switch [(k, l)] = .ok ⟨[(k, l)]⟩ := by
+    simp [cg_Switch, List.foldlM, ClifSwitch.set_entry, ClifSwitch.new]
+  have hfm : firstMatch [(k, l)] default x = (if x = k then l else default) := by
+    unfold firstMatch
+    by_cases h : k = x
+    · subst h; simp [List.find?]
+    · have h' : ¬ x = k := fun e => h e.symm
+      have hb : (k == x) = false := by simpa using h
+      simp [List.find?, hb, h']
+  refine ⟨?_, ⟨[(k, l)]⟩, hs, ?_⟩
+  · rw [eval_switch_first, hx, Res.bind_ok, hfm]
+  · have := switch_agrees dbg sw v x [(k, l)] default ⟨[(k, l)]⟩ hx hs
+    rw [eval_switch_first, hx, Res.bind_ok, hfm] at this
+    exact (Res.ok.inj this).symm
+
+/-- the block a CLIF `brif x, then, else` reaches: a test for NON-ZERO -/
+def brifTarget (x then_ else_ : Nat) : Nat := if x ≠ 0 then then_ else else_
+
+/-- on a bool examinee (0 / 1) the one-entry table `[(1, l)]` and a `brif` coincide … -/
+theorem brif_is_switch_on_bools (x l default : Nat) (hx : x ≤ 1) :
+    brifTarget x l default = firstMatch [(1, l)] default x := by
+  have : x = 0 ∨ x = 1 := by omega
+  rcases this with h | h <;> subst h <;> simp [brifTarget, firstMatch, List.find?]
+
+/-- … but NOT on a discriminant: for the examinee 2 (third variant of an enum matched with one explicit arm
+    for the second variant and `_`) the table `[(1, l)]` selects the default, a `brif` the arm. A code
+    generator that emits `brif` for this table disagrees with the evaluator (which is why the `Switch` arm
+    of `FuncGen::instruction` is tied to the `set_entry`/`emit` shape). -/
+theorem brif_is_not_switch_on_discriminants (l default : Nat) (h : l ≠ default) :
+    brifTarget 2 l default ≠ firstMatch [(1, l)] default 2 := by
+  simp [brifTarget, firstMatch, List.find?, h]
+
+example : brifTarget 2 7 9 = 7 ∧ firstMatch [(1, 7)] 9 2 = 9 := by decide
+
+
 /-- the examinee as the evaluator reads it (`switch_on`, generated in `EvalArms`) is the bit pattern
     of the operand the compiled code switches on; values `switch_on` does not support are a loud
     stop. -/
